@@ -583,7 +583,7 @@ func (w *world) byzAction() {
 	}
 	b := w.pickByz()
 	ref := func(ty, view, hash uint64) aRef { return aRef{ty, worldInst, h, view, hash} }
-	pick := r.Intn(7)
+	pick := r.Intn(8)
 	if w.kf1 && v > 0 && w.byz[w.leaderAt(h, v)] && r.Intn(2) == 0 {
 		pick = 0
 	}
@@ -767,6 +767,31 @@ func (w *world) byzAction() {
 				w.inject(target, m, "byz-type-confusion")
 				return
 			}
+		}
+	case 7: // a Byzantine member's PREPARE / COMMIT signed over a non-canonical encoding of the header (trailing bytes)
+		kind, ty := "P", uint64(2)
+		if r.Intn(2) == 0 {
+			kind, ty = "C", 3
+		}
+		x := w.someHash(0)
+		for _, hm := range w.history { // prefer the hash being decided right now
+			if (hm.Kind == "PP" || hm.Kind == "NV") && hm.Ref.Height == h && hm.Ref.View == v {
+				x = hm.Ref.Hash
+			}
+		}
+		if w.leaderAt(h, v) == b {
+			return
+		}
+		m := &aMsg{Kind: kind, Ref: ref(ty, v, x), Snd: aSig{b, true}, ShareOk: true}
+		raw := w.codec.encodeNonCanonical(m)
+		back := w.codec.decode(raw)
+		if back == nil {
+			return
+		}
+		for _, n := range w.honest {
+			w.rep.count("inject:byz-noncanonical-" + kind)
+			w.history = append(w.history, back)
+			w.deliver(n, back, raw)
 		}
 	case 6: // outsider with a valid key
 		out := uint64(w.n + r.Intn(2))
